@@ -19,6 +19,8 @@ NONCOMMUTATIVE = {
 }
 # parameters that do not determine values / shape of the result (DESIGN R-FWD)
 NOT_VALUE = {"out", "where", "dtype", "order", "subok", "casting", "like", "kwargs", "args"}
+# functions for which 'order' decides which element lands where (not just the memory layout)
+ORDER_MATTERS = {"reshape", "ravel", "flatten"}
 # numpy helpers that may touch storage without being "the" delegate
 HELPERS = {"asarray", "array", "asanyarray", "ascontiguousarray", "result_type", "common_type", "dtype",
            "broadcast_shapes", "ones", "zeros", "empty", "isin", "argsort"}
@@ -203,7 +205,7 @@ def run_fwd(ctx) -> RuleResult:
         qual = getattr(func, "_qualname", func.name)
         if np_params is not None:
             for pname in params:
-                if pname in NOT_VALUE or pname not in np_params:
+                if (pname in NOT_VALUE and not (pname == "order" and func.name in ORDER_MATTERS)) or pname not in np_params:
                     continue
                 used = pname in loads
                 result.ob(f"{qual}: parameter '{pname}' is used", used, module.loc(func), "")
@@ -219,7 +221,7 @@ def run_fwd(ctx) -> RuleResult:
             for reg in ctx.regs:
                 if reg.func is func:
                     names |= _short_targets(reg)
-            shared = [p for p in params if p in np_params and p not in NOT_VALUE]
+            shared = [p for p in params if p in np_params and (p not in NOT_VALUE or (p == "order" and func.name in ORDER_MATTERS))]
             if shared and names:
                 try:
                     paths = ctx.paths(module, func, max_iter=1)
